@@ -1,5 +1,5 @@
 CONSTANTS Mode = "lvl1"
-  NCand = 5
+  NCand = 4
 INIT Init
 NEXT Next
 INVARIANT TypeOK
